@@ -28,10 +28,13 @@ import (
 	"github.com/prysmaticlabs/prysm/v4/crypto/bls/blst"
 	blscommon "github.com/prysmaticlabs/prysm/v4/crypto/bls/common"
 
+	sdkmath "cosmossdk.io/math"
 	avsprecompile "github.com/ExocoreNetwork/exocore/precompiles/avs"
+	assetstypes "github.com/ExocoreNetwork/exocore/x/assets/types"
 	avskeeper "github.com/ExocoreNetwork/exocore/x/avs/keeper"
 	avstypes "github.com/ExocoreNetwork/exocore/x/avs/types"
 	operatortypes "github.com/ExocoreNetwork/exocore/x/operator/types"
+	oracletypes "github.com/ExocoreNetwork/exocore/x/oracle/types"
 )
 
 func init() { register("c20", runC20) }
@@ -424,6 +427,7 @@ type c20CaseRun struct {
 	tags      []string
 	nOK       int
 	kinds     map[string]bool
+	pools     string // Coq term of the pools observed for the next recorded step (opt-in), "" = none
 	terms     map[string]string
 	termOrder []string
 }
@@ -440,7 +444,12 @@ func (c *c20CaseRun) addTag(t string) {
 
 func (c *c20CaseRun) record(opCoq, desc, res string) {
 	d := c.h.dump(c.ctx)
-	c.steps = append(c.steps, cApp("mkStep", opCoq, res, d.coqDelta(c.prev)))
+	pools := "None"
+	if c.pools != "" {
+		pools = c.pools
+		c.pools = ""
+	}
+	c.steps = append(c.steps, cApp("mkStep", opCoq, res, d.coqDelta(c.prev), pools))
 	c.descs = append(c.descs, desc+" -> "+res)
 	c.prev = d
 	c.h.w.Count("res:" + strings.SplitN(desc, " ", 2)[0] + ":" + res)
@@ -488,6 +497,9 @@ func (c *c20CaseRun) opt(ai, oi int, in bool) string {
 			selfOK, self = true, v.SelfUSDValue.BigInt().String()
 		}
 	}()
+	if in {
+		c.pools = c.observePools(avs, op)
+	}
 	name, con := avsprecompile.MethodRegisterOperatorToAVS, "OOptIn"
 	if !in {
 		name, con = avsprecompile.MethodDeregisterOperatorFromAVS, "OOptOut"
@@ -818,6 +830,125 @@ func c20Intern(term string) string {
 	}
 	sb.WriteString(body)
 	return sb.String()
+}
+
+// observePools reads, right before an opt-in, what the operator's self USD value for this AVS is made of: for every
+// asset of the AVS that the operator holds, the operator's pool (amount, operator share, total share), the oracle
+// price with its decimals and the asset decimals. "" when something cannot be read.
+func (c *c20CaseRun) observePools(avs common.Address, op sdk.AccAddress) (out string) {
+	defer func() {
+		if r := recover(); r != nil {
+			out = ""
+		}
+	}()
+	var info *c20Avs
+	for i := range c.prev.Avs {
+		if c.prev.Avs[i].Key == hex.EncodeToString(avs.Bytes()) {
+			info = &c.prev.Avs[i]
+		}
+	}
+	if info == nil {
+		return ""
+	}
+	cc, _ := c.ctx.CacheContext()
+	app := c.h.env.App
+	var ps []string
+	for _, assetID := range info.Assets {
+		st, err := app.AssetsKeeper.GetOperatorSpecifiedAssetInfo(cc, op, assetID)
+		if err != nil {
+			continue // the operator does not hold this asset
+		}
+		ai, err := app.AssetsKeeper.GetStakingAssetInfo(cc, assetID)
+		if err != nil {
+			return ""
+		}
+		pr, err := app.OracleKeeper.GetSpecifiedAssetsPrice(cc, assetID)
+		if err != nil {
+			return ""
+		}
+		ps = append(ps, cApp("mkPool", cZbig(st.TotalAmount.BigInt()), cZbig(st.OperatorShare.BigInt()), cZbig(st.TotalShare.BigInt()),
+			cZbig(pr.Value.BigInt()), cZ(int64(ai.AssetBasicInfo.Decimals)), cZ(int64(pr.Decimal))))
+	}
+	return "(Some " + cList(ps) + ")"
+}
+
+// fixtures of the minimum-self-delegation boundary scenarios: oracle price of the staking asset (value, decimals)
+// through the oracle keeper, and a self-staked pool of an exact base-unit amount for an operator without stake
+func (c *c20CaseRun) setPrice(price string, dec int32) {
+	c.h.env.App.OracleKeeper.SetPrices(c.ctx, oracletypes.Prices{
+		TokenID: 1, NextRoundID: 2,
+		PriceList: []*oracletypes.PriceTimeRound{{Price: price, Decimal: dec, RoundID: 1}},
+	})
+	c.descs = append(c.descs, fmt.Sprintf("fixture price=%s decimals=%d", price, dec))
+}
+
+func (c *c20CaseRun) setStake(oi int, amount *big.Int) {
+	a := sdkmath.NewIntFromBigInt(amount)
+	sh := sdkmath.LegacyNewDecFromBigInt(amount)
+	err := c.h.env.App.AssetsKeeper.UpdateOperatorAssetState(c.ctx, c.h.ops[oi], c.h.env.AssetID,
+		assetstypes.DeltaOperatorSingleAsset{TotalAmount: a, PendingUndelegationAmount: sdkmath.ZeroInt(), TotalShare: sh, OperatorShare: sh})
+	if err != nil {
+		panic(err)
+	}
+	c.descs = append(c.descs, fmt.Sprintf("fixture stake op%d amount=%s", oi, amount))
+}
+
+// directedMinSelf: opt-ins whose self value is exactly at, 1e-18 below, a fraction of 1e-18 below and just above the
+// AVS's minimum self delegation, with asset decimals + price decimals from 18 to 24.
+//
+//	amount = 10^m + 1, price = 10^m - 1 (price decimals pdec): amount*price = 10^(2m) - 1, so with D = 6 + pdec the value is
+//	10^(2m-D) - 10^-D USD: for D = 18 exactly 1e-18 below the minimum 10^(2m-D), for D > 18 less than 1e-18 below it.
+func (h *c20H) directedMinSelf(m int, pdec int32) {
+	c := h.newCase()
+	ten := func(k int) *big.Int { return new(big.Int).Exp(big.NewInt(10), big.NewInt(int64(k)), nil) }
+	D := 6 + int(pdec)
+	min := new(big.Int).Quo(ten(2*m), ten(D)) // 10^(2m-D) USD, an integer by the choice of m
+	oi := 4                                   // the registered operator without genesis stake
+	amount := new(big.Int).Add(ten(m), big.NewInt(1))
+	below := new(big.Int).Sub(ten(m), big.NewInt(1))
+	c.setStake(oi, amount)
+	p := h.baseParams(0)
+	p.MinSelf = min.Uint64()
+	c.register(0, h.owners[0], p)
+	// a hair below the minimum: must be rejected
+	c.setPrice(below.String(), pdec)
+	c.opt(0, oi, true)
+	// exactly the minimum: price 10^m - 1 replaced by 10^m and amount 10^m + 1 -> value above; then exact with a second AVS
+	p2 := h.baseParams(1)
+	p2.MinSelf = min.Uint64()
+	c.register(1, h.owners[0], p2)
+	c.setPrice(ten(m).String(), pdec) // (10^m + 1) * 10^m / 10^D = min + 10^(m-D): just above
+	c.opt(0, oi, true)
+	c.opt(0, oi, false)
+	// exactly at the minimum: add stake so that amount = 2 * 10^m ... instead use price 10^pdec (1.0) and minimum = amount / 10^6
+	c.setPrice(ten(int(pdec)).String(), pdec)
+	p3 := h.baseParams(2)
+	exact := new(big.Int).Quo(amount, ten(6)) // floor(amount / 10^6) USD <= value: accepted
+	p3.MinSelf = exact.Uint64()
+	c.register(2, h.owners[0], p3)
+	c.opt(2, oi, true)
+	p3.MinSelf = exact.Uint64() + 1 // one USD more than the value (value = exact + 1e-6 * ...): rejected
+	c.update(1, h.owners[0], func() c20Params { q := p2; q.MinSelf = exact.Uint64() + 1; return q }())
+	c.opt(1, oi, true)
+	c.finish()
+}
+
+// directedExactMin: amount * price / 10^D is EXACTLY the minimum, and exactly one unit of the last decimal below it
+func (h *c20H) directedExactMin(units int64, pdec int32) {
+	c := h.newCase()
+	ten := func(k int) *big.Int { return new(big.Int).Exp(big.NewInt(10), big.NewInt(int64(k)), nil) }
+	oi := 4
+	amount := new(big.Int).Mul(big.NewInt(units), ten(6)) // `units` whole tokens
+	c.setStake(oi, amount)
+	c.setPrice(ten(int(pdec)).String(), pdec) // price 1.0 with pdec decimals: value = units USD exactly
+	p := h.baseParams(0)
+	p.MinSelf = uint64(units)
+	c.register(0, h.owners[0], p)
+	c.opt(0, oi, true) // exactly at the minimum: accepted
+	c.opt(0, oi, false)
+	c.setPrice(new(big.Int).Sub(ten(int(pdec)), big.NewInt(1)).String(), pdec) // price 1 - 10^-pdec: value = units - units*10^-pdec
+	c.opt(0, oi, true)                                                         // below: rejected
+	c.finish()
 }
 
 // ---- generators ---------------------------------------------------------------------------------
@@ -1528,6 +1659,14 @@ func runC20(a *Args) error {
 			h.directedDeregister(u, k)
 			ndir++
 		}
+	}
+	for _, mp := range [][2]int{{11, 13}, {11, 12}, {11, 14}, {12, 16}, {12, 18}, {13, 18}, {10, 12}} {
+		h.directedMinSelf(mp[0], int32(mp[1]))
+		ndir++
+	}
+	for _, up := range [][2]int{{1000, 13}, {7, 18}, {100, 0}} {
+		h.directedExactMin(int64(up[0]), int32(up[1]))
+		ndir++
 	}
 	h.directedTwoAVS(0, 0)
 	h.directedTwoAVS(1, 1)
